@@ -18,11 +18,25 @@ LMAX = 3
 
 
 class MapShape:
-    def __init__(self, label, k_outer_before, k_inner, k_outer_after, minlen, sym_has=True):
+    def __init__(self, label, k_outer_before, k_inner, k_outer_after, minlen, sym_has=True, tree=None):
         self.label = label
         self.shape = (k_outer_before, k_inner, k_outer_after)
         self.minlen = minlen
         self.sym_has = sym_has      # whether "pushed with / without an origin" is symbolic per segment
+        # op tree: 'p' = one push, a list = a text built the same way and merged at that point
+        self.tree = tree if tree is not None else (['p'] * k_outer_before + ([['p'] * k_inner] if k_inner else []) + ['p'] * k_outer_after)
+
+
+def tree_count(t):
+    return sum(1 if x == 'p' else tree_count(x) for x in t)
+
+
+def tree_depth(t):
+    return max([0] + [1 + tree_depth(x) for x in t if x != 'p'])
+
+
+def tree_str(t):
+    return ''.join('p' if x == 'p' else '(' + tree_str(x) + ')' for x in t)
 
 
 _TIER = ['quick']
@@ -30,6 +44,21 @@ _TIER = ['quick']
 
 def args_tier():
     return _TIER[0]
+
+
+def ops_tree(tree, mk):
+    ctr = [0]
+
+    def go(t):
+        out = []
+        for x in t:
+            if x == 'p':
+                out.append(mk(ctr[0]))
+                ctr[0] += 1
+            else:
+                out.append({'op': 'merge', 'ops': go(x)})
+        return out
+    return go(tree)
 
 
 def mapcore_work(sh):
@@ -40,7 +69,7 @@ def mapcore_work(sh):
     f_merge = E.fn('merge', lambda e: e.argnorm and e.argnorm[0] == '&PreprocessedText')
     f_origin = E.fn('origin', lambda e: e.argnorm and e.argnorm[0] == '&PreprocessedText')
     kb, ki, ka = sh.shape
-    n = kb + ki + ka
+    n = tree_count(sh.tree)
     t0 = time.time()
 
     def body(it):
@@ -58,16 +87,19 @@ def mapcore_work(sh):
             else:
                 org = none()
             it.run_func(f_push, [Ref(cell, 0), AbsStr(lens[i]), org])
-        outer = [it.run_func(f_new, [])]
-        for i in range(kb):
-            push(outer, i)
-        if ki:
-            inner = [it.run_func(f_new, [])]
-            for i in range(kb, kb + ki):
-                push(inner, i)
-            it.run_func(f_merge, [Ref(outer, 0), inner[0]])
-        for i in range(kb + ki, n):
-            push(outer, i)
+        ctr = [0]
+
+        def build(tree):
+            cell = [it.run_func(f_new, [])]
+            for x in tree:
+                if x == 'p':
+                    push(cell, ctr[0])
+                    ctr[0] += 1
+                else:
+                    inner = build(x)
+                    it.run_func(f_merge, [Ref(cell, 0), inner[0]])
+            return cell
+        outer = build(sh.tree)
         total = sum(lens)
         it.assume(pos < total)
         r = it.run_func(f_origin, [Ref(outer, 0), pos])
@@ -96,9 +128,9 @@ def mapcore_work(sh):
     res = ex.run()
     if ex.truncated and not getattr(ex, 'stopped_early', False):
         raise Inconclusive('map core shape %s: path budget exhausted' % sh.label)
-    out = {'family': 'mapcore', 'label': sh.label, 'text': 'ops: %d push, merge(%d push), %d push; len in [%d,%d]' % (kb, ki, ka, sh.minlen, LMAX),
+    out = {'family': 'mapcore', 'label': sh.label, 'text': 'ops: %s (p = push, (..) = merge of a text built inside; merge depth %d); len in [%d,%d]' % (tree_str(sh.tree), tree_depth(sh.tree), sh.minlen, LMAX),
            'real_paths': len(res), 'ref_paths': 0, 'pairs': len(res), 'queries': ex.solver_checks, 'solver_s': ex.solver_time,
-           'steps': ex.steps, 'models': dict(mdl.called), 'cex': [], 'obligations': [], 'case': {'shape': sh.shape, 'minlen': sh.minlen}}
+           'steps': ex.steps, 'models': dict(mdl.called), 'cex': [], 'obligations': [], 'case': {'tree': tree_str(sh.tree), 'minlen': sh.minlen}}
     seen = 0
 
     def ops_of(m):
@@ -112,11 +144,7 @@ def mapcore_work(sh):
             if any(k.startswith('charcount_') for k in m) and L >= 2:
                 op['text'] = '\u00e9' + 'x' * (L - 2)      # multi-byte content (chars != bytes)
             return op
-        ops = [mk(i) for i in range(kb)]
-        if ki:
-            ops.append({'op': 'merge', 'ops': [mk(i) for i in range(kb, kb + ki)]})
-        ops += [mk(i) for i in range(kb + ki, n)]
-        return ops
+        return ops_tree(sh.tree, mk)
 
     npanic = 0
     for r in res:
@@ -146,10 +174,7 @@ def mapcore_work(sh):
                 L = iv('len%d' % i, sh.minlen)
                 org = [i, iv('src%d' % i), iv('src%d' % i) + L] if (m.get('has%d' % i, 'False') == 'True' or not sh.sym_has) else None
                 return {'op': 'push', 'len': L, 'origin': org}
-            ops = [mk(i) for i in range(kb)]
-            if ki:
-                ops.append({'op': 'merge', 'ops': [mk(i) for i in range(kb, kb + ki)]})
-            ops += [mk(i) for i in range(kb + ki, n)]
+            ops = ops_tree(sh.tree, mk)
             nat = E.native().request({'cmd': 'pt_ops', 'ops': ops}, cache=False)
             pos = iv('pos')
             got_native = nat['origins'][pos] if nat.get('ok') and pos < len(nat['origins']) else 'n/a'
@@ -208,6 +233,19 @@ def families(args):
         shapes.append(MapShape('push%d/min1' % k, k, 0, 0, 1, sym_has=False))
     for kb, ki, ka in (((6, 7, 2), (2, 12, 1)) if args.tier == 'quick' else ((6, 7, 2), (2, 12, 1), (12, 12, 3), (0, 13, 13))):
         shapes.append(MapShape('merge%d-%d-%d/min1' % (kb, ki, ka), kb, ki, ka, 1, sym_has=False))
+    # nested merges (an include inside a macro expansion inside an include ...): offsets are shifted once per level
+    P = 'p'
+    nested = [('n2a', [P, [P, [P, P], P], P]), ('n2b', [[[P, P]], P]), ('n2c', [P, [[P], [P, P]]]), ('n3a', [[P, [[P, [P]], P]], P])]
+    if args.tier != 'quick':
+        nested += [('n2d', [P, P, [P, [P, P, P], P, [P]], P]), ('n3b', [P, [P, [P, [P, P], P], P], P]), ('n4', [[[[[P, P], P], P], P], P])]
+    for name, tr in nested:
+        for minlen in (1, 0):
+            if minlen == 0 and tree_count(tr) > (4 if args.tier == 'quick' else 5):
+                continue
+            shapes.append(MapShape('nest-%s-%s/min%d' % (name, tree_str(tr), minlen), 0, 0, 0, minlen, tree=tr))
+    if args.tier != 'quick':
+        big = [P] * 5 + [[P] * 4 + [[P] * 6 + [[P] * 3] + [P] * 2] + [P] * 3] + [P] * 2
+        shapes.append(MapShape('nest-big-%s/min1' % tree_str(big), 0, 0, 0, 1, sym_has=False, tree=big))
     fam_map = ppprop.Family('mapcore', shapes, None, ('origin',), custom_work=mapcore_work)
     com_sites = [p for p in ppfamily.comment_programs(args.tier, args.seed) if p.label in ('com/line', 'com/line/crlf', 'com/multi', 'com/multi/crlf', 'com/sole-sep')]
     fam_sites = ppprop.Family('sites', ppfamily.site_programs(args.tier, args.seed) + com_sites, site_case, ('origin', 'tokens'),
@@ -224,12 +262,12 @@ def families(args):
 def main():
     args = proprun.parse_args(PID)
     return ppprop.run(PID, 'model_checking', families, args,
-                      rule='mapcore: one case per op-sequence shape (k pushes / pushes+merge+pushes), all lengths 0..3 (and the >=1 sub-family), source offsets, '
+                      rule='mapcore: one case per op-sequence shape (k pushes / pushes+merge+pushes / merges nested up to 4 levels), all lengths 0..3 (and the >=1 sub-family), source offsets, '
                            'presence of an origin and the probe position symbolic, executed on the real push/merge/origin/Range MIR; sites: one case per text of the '
                            'emission-site family with define table and strip_comments symbolic; distinct_nontrivial = (case, feasible path) pairs of cases with >1 path',
-                      bounds={'tier': args.tier, 'mapcore': 'segments <= 4 quick / 5 thorough with len 0..3, <= 7 thorough with len 1..3; up to 14 quick / 30 thorough segments with len 1..3 (internal B-tree nodes); one merge level', 'sites': 'text family lib/ppfamily.site_programs'},
+                      bounds={'tier': args.tier, 'mapcore': 'segments <= 4 quick / 5 thorough with len 0..3, <= 7 thorough with len 1..3; up to 14 quick / 30 thorough segments with len 1..3 (internal B-tree nodes); merges nested up to 3 levels quick / 4 thorough (<= 6 quick / 9 thorough segments, one 25-segment shape in thorough)', 'sites': 'text family lib/ppfamily.site_programs'},
                       outside=['more segments than the bound in the symbolic map-core query (larger maps occur only through the concrete site texts)',
-                               'more than one merge level in the map-core query', 'SyntaxTree::get_origin (one-line wrapper, covered by C20/C14 harness of sv-parser crate)'],
+                               'merges nested deeper than 4 levels in the map-core query', 'SyntaxTree::get_origin (one-line wrapper, covered by C20/C14 harness of sv-parser crate)'],
                       assumptions=ppprop.STD_ASSUMPTIONS,
                       sample_sym='lengths/offsets/has-origin/pos (mapcore); def_A, alt_A, strip_comments (sites)')
 
